@@ -484,7 +484,9 @@ def evaluate_z3_mod(
     if not z3.is_mod(expr):
         return Nothing
 
-    return Some(construct_result(lambda args: args[0] % args[1], children_results))
+    return Some(
+        construct_result(lambda args: args[0] % abs(args[1]), children_results)
+    )
 
 
 def evaluate_z3_pow(
